@@ -410,7 +410,7 @@ func (p *c09PCase) judge(all []c09Seg, how, waited string) (cur []c09Seg, remove
 func TestVerifC09Periodic(t *testing.T) {
 	rep := kit.NewReport("C09", "periodic")
 	defer rep.Write()
-	rep.SetRule("the log's own periodic cleaner loop on real ticks (CleanerInterval 4/8/15 ms) with a per-log MOCKED age clock (computeTTL) and harness-chosen timestamps; nobody calls Clean(): seeded layouts (as in the seeded unit, 1 in 5 with skewed leader clocks) are built, the log is reopened with limits (age on in 4 of 5 cases, message/byte limits aimed at the layout) and 2-5 changes follow: the fake clock passes the last-write time of some segment while the log sits idle and the loop keeps ticking (0-3 idle passes before), nothing at all, appends (with the loop parked, so the new segments are measured before the cleaner sees them) with or without a clock move, HW moves, close+reopen with or without a clock move while down; after every change the THIRD pass of that log observed at " + c09PPoint + " is parked and the files are judged against the state before the change: removed = prefix of whole segments, never the newest, necessity, sufficiency, survivors untouched, offsets, forward/reverse reads, no leftover files; a loop that makes no pass while the busy control log (interval 15 ms) makes 60 is judged on its files as they are (limit violated => violation ...:loop-made-no-pass); non-trivial = the loop removed >=1 segment in an idle round; distinct = layout + limits + changes")
+	rep.SetRule("the log's own periodic cleaner loop on real ticks (CleanerInterval 4/8/15 ms) with a per-log MOCKED age clock (computeTTL) and harness-chosen timestamps; nobody calls Clean(): seeded layouts (as in the seeded unit, 1 in 5 with skewed leader clocks) are built, the log is reopened with limits (age on in 4 of 5 cases, message/byte limits aimed at the layout) and 2-5 changes follow: the fake clock passes the last-write time of some segment while the log sits idle and the loop keeps ticking (0-3 idle passes before), nothing at all, appends (with the loop parked, so the new segments are measured before the cleaner sees them) with or without a clock move, appends while the loop keeps ticking (one-batch-per-segment layouts, so the segments are known without a scan; clock moves in between), HW moves, close+reopen with or without a clock move while down; after every change the THIRD pass of that log observed at " + c09PPoint + " is parked and the files are judged against the state before the change: removed = prefix of whole segments, never the newest, necessity, sufficiency, survivors untouched, offsets, forward/reverse reads, no leftover files; a loop that makes no pass while the busy control log (interval 15 ms) makes 60 is judged on its files as they are (limit violated => violation ...:loop-made-no-pass); non-trivial = the loop removed >=1 segment in an idle round; distinct = layout + limits + changes")
 	rep.Assume("passes are attributed to logs by the receiver pointer in the goroutine stack at the hook point; a pass that cannot be attributed downgrades 'loop made no pass' verdicts to inconclusive")
 	rep.Assume("necessity is judged with the limits as they stand when the loop is parked: the fake clock only moves forward and the log only grows, so this is implied for every pass in between")
 	rep.Assume("timestamps never equal the age cutoff; age semantics with non-monotonic last-write times as in the seeded unit")
@@ -421,7 +421,7 @@ func TestVerifC09Periodic(t *testing.T) {
 		return
 	}
 	root := kit.NewRNG(kit.Mix(kit.Seed(), 0xC09E))
-	ncases := kit.Scale(160, 900)
+	ncases := kit.Scale(160, 2400)
 	seeds := make([]uint64, ncases)
 	for i := range seeds {
 		seeds[i] = root.Uint64()
@@ -572,7 +572,12 @@ func c09RunPeriodic(rep *kit.Report, seed uint64, idx int) (dir string) {
 			break
 		}
 		// next change
-		kind := []string{"idle-clock", "idle-clock", "idle-clock", "idle-nothing", "append", "append-clock", "restart", "restart-clock"}[rng.Intn(8)]
+		kind := []string{"idle-clock", "idle-clock", "idle-clock", "idle-nothing", "append", "append-clock", "restart", "restart-clock", "append-running", "append-running"}[rng.Intn(10)]
+		if kind == "append-running" && maxSeg != 1 {
+			// segment boundaries are only known without a scan when every
+			// batch gets a segment of its own
+			kind = "append"
+		}
 		if p.age == 0 {
 			kind = strings.TrimSuffix(strings.Replace(kind, "idle-clock", "idle-nothing", 1), "-clock")
 		}
@@ -630,6 +635,50 @@ func c09RunPeriodic(rep *kit.Report, seed uint64, idx int) (dir string) {
 				}
 			}
 			p.st.hold(3, fn)
+		case "append-running":
+			// The log keeps being written while the loop ticks: nothing is
+			// parked, the cleaner may remove segments before the harness has
+			// seen them.  With MaxSegmentBytes=1 every batch lands in a
+			// segment of its own (rolled by Append, or already rolled empty by
+			// the loop), so the state "before" is known by construction.
+			p.st.hold(0, nil)
+			all = append([]c09Seg(nil), all...)
+			if n := len(all); all[n-1].Count == 0 {
+				all = all[:n-1] // an empty active segment: the first batch goes there
+			}
+			nb := rng.Range(1, 4)
+			moveAfter := -1
+			if p.age > 0 && rng.Bool() {
+				moveAfter = rng.Intn(nb)
+			}
+			how = fmt.Sprintf("%d appends while the loop keeps ticking", nb)
+			for b := 0; b < nb; b++ {
+				var one []c09Batch
+				one, planned = c09PlanClk(rng, maxSeg, &ts, 1, planned, skew)
+				first := e.next
+				if !run(one) {
+					return
+				}
+				sg := c09Seg{Base: first, Count: e.next - first, Bytes: (e.next - first) * c09RecBytes(one[0].vlen), FirstOff: first, LastOff: e.next - 1}
+				for o := first; o < e.next; o++ {
+					sg.Recs = append(sg.Recs, e.orig[o])
+				}
+				sg.LastTS = sg.Recs[len(sg.Recs)-1].TS
+				all = append(all, sg)
+				if rng.Bool() {
+					e.setHW(e.next - 1)
+				}
+				if b == moveAfter {
+					if c, can := p.nextCutoff(all); can {
+						how += ", the age clock moved in between"
+						p.st.hold(0, func() { p.setCutoff(c) })
+					}
+				}
+				if b < nb-1 {
+					p.idle(rng.Range(0, 2))
+				}
+			}
+			p.st.hold(3, nil)
 		case "restart", "restart-clock":
 			p.closeLog()
 			how = "restart"
